@@ -72,8 +72,8 @@ def _rows_equal(ctx, a, b):
 def _cfg_frame(tier):
     out = []
     ops = ['fire', 'fire_extra', 'zero', 'elevation', 'fire_raises']
-    plan = [('A', 100.0, 'two', {}), ('B', 60.0, 'left', {})] if tier == 'quick' else \
-        [('A', 100.0, 'two', {}), ('B', 60.0, 'left', {}), ('C', 100.0, 'tail', dict(relative_deg=30.0)), ('A', 30.0, 'none', dict(look_deg=20.0))]
+    plan = [('A', 100.0, 'two', {}), ('B', 60.0, 'left', {}), ('E', 100.0, 'none', {})] if tier == 'quick' else \
+        [('A', 100.0, 'two', {}), ('B', 60.0, 'left', {}), ('E', 100.0, 'none', {}), ('C', 100.0, 'tail', dict(relative_deg=30.0)), ('A', 30.0, 'none', dict(look_deg=20.0))]
     for (c, step, wind, kw) in plan:
         for op in ops:
             for preset in ('imperial', 'metric'):
@@ -83,7 +83,7 @@ def _cfg_frame(tier):
 
 @harness('C10.frame', 'C10', configs=_cfg_frame, functions=FUNCS, cost=8, engine_opts={'div_check': False, 'nl_axioms_in_feasibility': False, 'unit_timeout': 150},
          must_reach=['check:same_as_fresh_calculator', 'check:no_garbage_in_result'],
-         bounds='one public operation (fire plain / extra, set_weapon_zero, barrel_elevation_for_target, a fire that raises RangeError) on carriers A, B '
+         bounds='one public operation (fire plain / extra, set_weapon_zero, barrel_elevation_for_target, a fire that raises RangeError) on carriers A, B, E (bullet without dimensions in a rifled barrel) '
                 '[thorough: + C, inclined A] from an arbitrary residual solver state (17 attributes symbolic / poisoned) with the global default step changed after '
                 'creation and two preferred-unit presets; inductive => every finite history',
          assumptions=['the residual state of the solver object is exactly its instance attributes (collected from a used calculator); Calculator holds only _config and _calc'])
